@@ -93,6 +93,23 @@ def generate(run_seed, index, tier):
         calls[0]['args']['reuse'] = True
         calls.append(spec)
         names = names + [sib]
+    if (not heavy) and (not strat) and r.random() < 0.3:
+        # a sibling spec: same function, SAME seed, other arguments (a cache keyed on too few arguments answers it with the
+        # first spec's result); both are re-computed in the pristine process
+        fresh = reg.R[calls[0]['fn']]['gen'](r)
+        keys = [k for k in reg.SIB_KEYS.get(calls[0]['fn'], []) if fresh.get(k) != calls[0]['args'].get(k)]
+        if keys and r.random() < 0.7:
+            args = copy.deepcopy(calls[0]['args'])  # change ONE argument only
+            k1 = r.choice(keys)
+            args[k1] = fresh[k1]
+            if calls[0]['fn'] == 'get_purification':
+                args['dimR'] = max(args['dimR'], args['d'])
+            fresh = args
+        sib = {'fn': calls[0]['fn'], 'args': fresh, 'seed': calls[0]['seed']}
+        if sib['args'] != calls[0]['args']:
+            calls.append(sib)
+            names = names + [sib['fn']]
+            p_pristine = 1.0
     use_clock = any(n.startswith('optimize.') or 'Boundary' in n or 'get_boundary' in n for n in names)
     ops = []
     for k, spec in enumerate(calls):
